@@ -29,6 +29,9 @@ pub struct Case {
     /// the streaming encoders are flushed after every n-th write (0: only once, at the end)
     #[serde(default)]
     pub flush_every: u8,
+    /// the underlying async stream answers "not ready yet" on every n-th poll (0 or 1: never)
+    #[serde(default)]
+    pub pend_every: u8,
 }
 
 /// An in-memory stream that moves at most `split[i]` bytes in its i-th transfer.
@@ -38,11 +41,22 @@ struct Trickle<'a> {
     sink: Vec<u8>,
     split: &'a [u32],
     i: usize,
+    pend_every: u8,
+    polls: usize,
+    limit_hint: usize,
 }
 
 impl<'a> Trickle<'a> {
     fn new(src: &'a [u8], split: &'a [u32]) -> Self {
-        Trickle { src, at: 0, sink: Vec::new(), split, i: 0 }
+        Trickle { src, at: 0, sink: Vec::new(), split, i: 0, pend_every: 0, polls: 0, limit_hint: 0 }
+    }
+    fn not_ready(&mut self, cx: &mut std::task::Context<'_>) -> bool {
+        self.polls += 1;
+        if self.pend_every >= 2 && self.polls % usize::from(self.pend_every) == 0 {
+            cx.waker().wake_by_ref();
+            return true;
+        }
+        false
     }
     fn cap(&mut self, want: usize) -> usize {
         if self.split.is_empty() {
@@ -66,6 +80,9 @@ impl Read for Trickle<'_> {
 impl Write for Trickle<'_> {
     fn write(&mut self, buf: &[u8]) -> std::io::Result<usize> {
         let n = self.cap(buf.len());
+        if self.sink.len() > (64 << 20) + 64 * self.limit_hint {
+            return Err(std::io::Error::new(std::io::ErrorKind::Other, "verif sink: far more bytes than any encoding of the input needs (livelock?)"));
+        }
         self.sink.extend_from_slice(&buf[..n]);
         Ok(n)
     }
@@ -75,13 +92,19 @@ impl Write for Trickle<'_> {
 }
 
 impl futures::AsyncRead for Trickle<'_> {
-    fn poll_read(mut self: std::pin::Pin<&mut Self>, _: &mut std::task::Context<'_>, buf: &mut [u8]) -> std::task::Poll<std::io::Result<usize>> {
+    fn poll_read(mut self: std::pin::Pin<&mut Self>, cx: &mut std::task::Context<'_>, buf: &mut [u8]) -> std::task::Poll<std::io::Result<usize>> {
+        if self.not_ready(cx) {
+            return std::task::Poll::Pending;
+        }
         std::task::Poll::Ready(Read::read(&mut *self, buf))
     }
 }
 
 impl futures::AsyncWrite for Trickle<'_> {
-    fn poll_write(mut self: std::pin::Pin<&mut Self>, _: &mut std::task::Context<'_>, buf: &[u8]) -> std::task::Poll<std::io::Result<usize>> {
+    fn poll_write(mut self: std::pin::Pin<&mut Self>, cx: &mut std::task::Context<'_>, buf: &[u8]) -> std::task::Poll<std::io::Result<usize>> {
+        if self.not_ready(cx) {
+            return std::task::Poll::Pending;
+        }
         std::task::Poll::Ready(Write::write(&mut *self, buf))
     }
     fn poll_flush(self: std::pin::Pin<&mut Self>, _: &mut std::task::Context<'_>) -> std::task::Poll<std::io::Result<()>> {
@@ -150,8 +173,9 @@ fn stream_compress_sync(c: u8, d: &[u8], split: &[u32], ssplit: &[u32], flush_ev
     Ok((out.sink, parts.len()))
 }
 
-fn stream_compress_async(c: u8, d: &[u8], split: &[u32], ssplit: &[u32], flush_every: u8) -> std::io::Result<(Vec<u8>, usize)> {
+fn stream_compress_async(c: u8, d: &[u8], split: &[u32], ssplit: &[u32], flush_every: u8, pend_every: u8) -> std::io::Result<(Vec<u8>, usize)> {
     let mut out = Trickle::new(&[], ssplit);
+    out.pend_every = pend_every;
     let parts = chunks(d, split);
     {
         let mut w = util::compress_async(codec::to_lib(c), &mut out)?;
@@ -177,6 +201,14 @@ fn stream_decompress_sync(c: u8, comp: &[u8], split: &[u32], ssplit: &[u32]) -> 
     let mut buf = vec![0u8; split.iter().copied().max().unwrap_or(1).max(1) as usize];
     let mut i = 0usize;
     loop {
+        // now and then a read into an empty buffer: it returns 0 and means nothing (not for zstd, whose upstream
+        // reader refuses empty buffers)
+        if i % 7 == 3 && c != 4 {
+            let z = r.read(&mut buf[..0])?;
+            if z != 0 {
+                return Err(std::io::Error::new(std::io::ErrorKind::Other, "a read into an empty buffer returned bytes"));
+            }
+        }
         let k = split[i % split.len()].max(1) as usize;
         let n = r.read(&mut buf[..k])?;
         if n == 0 {
@@ -188,8 +220,9 @@ fn stream_decompress_sync(c: u8, comp: &[u8], split: &[u32], ssplit: &[u32]) -> 
     Ok((out, i))
 }
 
-fn stream_decompress_async(c: u8, comp: &[u8], split: &[u32], ssplit: &[u32]) -> std::io::Result<(Vec<u8>, usize)> {
+fn stream_decompress_async(c: u8, comp: &[u8], split: &[u32], ssplit: &[u32], pend_every: u8) -> std::io::Result<(Vec<u8>, usize)> {
     let mut cur = Trickle::new(comp, ssplit);
+    cur.pend_every = pend_every;
     let mut r = util::decompress_async(codec::to_lib(c), &mut cur)?;
     let mut out = Vec::new();
     if split.is_empty() {
@@ -231,7 +264,7 @@ fn check(c: &Case, py: bool) -> CaseResult {
     // encoders
     let one = guarded("compress_all", || util::compress_all(codec::to_lib(c.codec), &d))?.map_err(|e| Fail::new(format!("C14/err/compress_all/{cn}"), format!("{e}")))?;
     let (ss, nw) = e("compress(streaming)", guarded("compress", || stream_compress_sync(c.codec, &d, &c.wsplit, &c.ssplit, c.flush_every))?)?;
-    let (sa, _) = e("compress_async", guarded("compress_async", || stream_compress_async(c.codec, &d, &c.wsplit, &c.ssplit, c.flush_every))?)?;
+    let (sa, _) = e("compress_async", guarded("compress_async", || stream_compress_async(c.codec, &d, &c.wsplit, &c.ssplit, if c.pend_every >= 2 { 0 } else { c.flush_every }, c.pend_every))?)?;
     let mut nr = 0;
     for (ename, comp) in [("compress_all", &one), ("compress-streaming", &ss), ("compress_async", &sa)] {
         // upstream crates decode it, consuming the whole stream
@@ -243,7 +276,7 @@ fn check(c: &Case, py: bool) -> CaseResult {
         ensure!(r1 == d, format!("C14/roundtrip-differs/{ename}->decompress_all/{cn}"), "{}", same(&r1, &d));
         let (r2, n2) = e("decompress(streaming)", guarded("decompress", || stream_decompress_sync(c.codec, comp, &c.rsplit, &c.ssplit))?)?;
         ensure!(r2 == d, format!("C14/roundtrip-differs/{ename}->decompress-streaming/{cn}"), "read sizes {:?}: {}", &c.rsplit[..c.rsplit.len().min(6)], same(&r2, &d));
-        let (r3, _) = e("decompress_async", guarded("decompress_async", || stream_decompress_async(c.codec, comp, &c.rsplit, &c.ssplit))?)?;
+        let (r3, _) = e("decompress_async", guarded("decompress_async", || stream_decompress_async(c.codec, comp, &c.rsplit, &c.ssplit, c.pend_every))?)?;
         ensure!(r3 == d, format!("C14/roundtrip-differs/{ename}->decompress_async/{cn}"), "read sizes {:?}: {}", &c.rsplit[..c.rsplit.len().min(6)], same(&r3, &d));
         nr = nr.max(n2);
     }
@@ -269,6 +302,7 @@ fn check(c: &Case, py: bool) -> CaseResult {
         .label(nr >= 2, "multi-read")
         .label(c.flush_every > 0 && nw > usize::from(c.flush_every), "flush-between-writes")
         .label(!c.ssplit.is_empty(), "short-transfers-in-underlying-stream")
+        .label(!c.ssplit.is_empty() && c.pend_every >= 2, "short-transfers-and-not-ready-answers")
         .label(c.ssplit.first().map_or(false, |k| *k < 4), "first-transfer-shorter-than-a-codec-magic")
         .label(true, super::c01::codec_label(c.codec)))
 }
@@ -335,7 +369,7 @@ fn python_batch(ctx: &Ctx) {
 fn strategy(max_len: u32) -> impl Strategy<Value = Case> {
     let len = prop_oneof![1 => Just(0u32), 1 => Just(1u32), 4 => 2u32..300, 3 => 300u32..20_000, 1 => 20_000u32..=max_len];
     let split = || prop_oneof![1 => Just(vec![]), 2 => (1u32..10).prop_map(|k| vec![k]), 3 => proptest::collection::vec(prop_oneof![3 => 1u32..20, 2 => 20u32..5000, 1 => 5000u32..100_000], 1..8)];
-    (prop_oneof![6 => 0u8..3, 2 => 3u8..6, 2 => 6u8..9], len, any::<u32>(), 1u8..=4, split(), split(), prop_oneof![2 => Just(vec![]), 1 => (1u32..6).prop_map(|k| vec![k]), 2 => proptest::collection::vec(prop_oneof![3 => 1u32..8, 2 => 8u32..5000], 1..6)], prop_oneof![3 => Just(0u8), 2 => Just(1u8), 1 => 2u8..6]).prop_map(|(kind, len, seed, codec, wsplit, rsplit, ssplit, flush_every)| Case { kind, len, seed, codec, wsplit, rsplit, ssplit, flush_every })
+    (prop_oneof![6 => 0u8..3, 2 => 3u8..6, 2 => 6u8..9], len, any::<u32>(), 1u8..=4, split(), split(), prop_oneof![2 => Just(vec![]), 1 => (1u32..6).prop_map(|k| vec![k]), 2 => proptest::collection::vec(prop_oneof![3 => 1u32..8, 2 => 8u32..5000], 1..6)], prop_oneof![3 => Just(0u8), 2 => Just(1u8), 1 => 2u8..6], prop_oneof![2 => Just(0u8), 1 => 2u8..5]).prop_map(|(kind, len, seed, codec, wsplit, rsplit, ssplit, flush_every, pend_every)| Case { kind, len, seed, codec, wsplit, rsplit, ssplit, flush_every, pend_every })
 }
 
 pub fn run(ctx: &Ctx) {
@@ -349,15 +383,15 @@ pub fn run(ctx: &Ctx) {
     let py = true;
     run_proptest(ctx, "codec-pairings", PtCfg::new(ctx.lanes, ctx.tier.pick(300, 5000)), || strategy(ctx.tier.pick(262_144, 1_048_576)), |c| check(c, py));
     let big: Vec<Case> = (0..ctx.tier.pick(4, 16))
-        .map(|i| Case { kind: (i % 3) as u8, len: ctx.tier.pick(262_144, if i % 4 == 2 { 1 << 20 } else { 8 << 20 }), seed: 77 + i as u32, codec: 1 + (i % 4) as u8, wsplit: vec![65_536, 1, 4096], rsplit: vec![8192, 3], ssplit: if i % 2 == 0 { vec![] } else { vec![1, 3, 70_000] }, flush_every: (i % 3) as u8 })
+        .map(|i| Case { kind: (i % 3) as u8, len: ctx.tier.pick(262_144, if i % 4 == 2 { 1 << 20 } else { 8 << 20 }), seed: 77 + i as u32, codec: 1 + (i % 4) as u8, wsplit: vec![65_536, 1, 4096], rsplit: vec![8192, 3], ssplit: if i % 2 == 0 { vec![] } else { vec![1, 3, 70_000] }, flush_every: (i % 3) as u8, pend_every: if i % 4 == 1 { 3 } else { 0 } })
         .collect();
     run_list(ctx, "codec-pairings-large", &big, |c| check(c, false));
     // just above 1 MiB for every codec in every tier (buffer / member-size thresholds of the codecs)
-    let mib: Vec<Case> = (1..=4u8).map(|c| Case { kind: if c % 2 == 0 { 2 } else { 0 }, len: (1 << 20) + 1 + u32::from(c), seed: 5 + u32::from(c), codec: c, wsplit: vec![], rsplit: vec![], ssplit: vec![], flush_every: 0 }).collect();
+    let mib: Vec<Case> = (1..=4u8).map(|c| Case { kind: if c % 2 == 0 { 2 } else { 0 }, len: (1 << 20) + 1 + u32::from(c), seed: 5 + u32::from(c), codec: c, wsplit: vec![], rsplit: vec![], ssplit: vec![], flush_every: 0, pend_every: 0 }).collect();
     run_list(ctx, "codec-pairings-above-1MiB", &mib, |c| check(c, false));
     run_list(ctx, "unknown-compression", &[0u8, 1u8], check_unknown);
     python_batch(ctx);
-    for c in ["empty-input", "one-byte", "large-input", "multi-write", "multi-read", "starts-with-codec-magic", "already-compressed-payload", "after-failed-decompress", "flush-between-writes", "short-transfers-in-underlying-stream", "first-transfer-shorter-than-a-codec-magic", "internal-brotli", "internal-gzip", "internal-zstd", "internal-none"] {
+    for c in ["empty-input", "one-byte", "large-input", "multi-write", "multi-read", "starts-with-codec-magic", "already-compressed-payload", "after-failed-decompress", "flush-between-writes", "short-transfers-in-underlying-stream", "short-transfers-and-not-ready-answers", "first-transfer-shorter-than-a-codec-magic", "internal-brotli", "internal-gzip", "internal-zstd", "internal-none"] {
         ctx.rec.floor(c, 4);
     }
 }
@@ -369,3 +403,4 @@ pub fn replay(sub: &str, case: &Value) -> Option<CaseResult> {
         _ => None,
     }
 }
+
